@@ -339,3 +339,24 @@ func VerifyRaw(typ int, pub, msg, sig []byte) bool {
 
 // Expand derives n pseudo-random bytes from (seed, label).
 func Expand(seed uint64, label string, n int) []byte { return expand(seed, label, n) }
+
+// PrivBytes returns the private key in the raw form the library's dependency
+// constructors take (Ed25519: 64 bytes; ECDSA: the scalar; DSA: the 20-byte
+// exponent), nil if the reference cannot sign with this type.
+func (k *SignKey) PrivBytes() []byte {
+	switch p := k.priv.(type) {
+	case ed25519.PrivateKey:
+		return append([]byte(nil), p...)
+	case *ecdsa.PrivateKey:
+		b, err := p.Bytes()
+		if err != nil {
+			return nil
+		}
+		return b
+	case *dsa.PrivateKey:
+		out := make([]byte, 20)
+		p.X.FillBytes(out)
+		return out
+	}
+	return nil
+}
